@@ -36,7 +36,7 @@ var adminVariants = []string{
 	"ok-add", "ok-update", "ok-update", "ok-remove", "minimal", "under", "dup", "dup", "foreign", "zeropower",
 	"wrongmsg", "trunc-sig", "short-pubkey", "nonce-stale", "nonce-future", "replay", "replay-direct",
 	"othersender", "direct-ok", "direct-spoof", "unknown-cmdtype", "unknown-cmd", "update-absent",
-	"add-existing", "bad-selfsign", "no-sigs", "dup-padded", "padded-keys",
+	"add-existing", "bad-selfsign", "no-sigs", "dup-padded", "padded-keys", "replay-contract", "replay-contract",
 }
 
 const keyPool = 8
@@ -52,6 +52,7 @@ type adminReq struct {
 	cmd     []byte         // JSON of AdminOPCmd
 	from    common.Address // the 20 bytes the precompile will see as "from"
 	direct  bool
+	via     *common.Address // direct-format input sent to this contract instead of the precompile
 }
 
 func (w *world) initValidators() {
@@ -347,6 +348,23 @@ func (w *world) mkAdmin(variant string, a simrt.Action, acct *account, nonce uin
 	}
 	req.cmd, _ = json.Marshal(&cmd)
 	switch variant {
+	case "replay-contract":
+		// an accepted request sent again through whatever contract is deployed (two of the deployable contracts
+		// forward their call data to the precompile, by CALL and by STATICCALL), in its original sender's name
+		var acc []adminRec
+		for _, r := range w.adminLog {
+			if r.accepted {
+				acc = append(acc, r)
+			}
+		}
+		if len(acc) == 0 || len(w.contracts) == 0 {
+			return nil
+		}
+		old := acc[rr.Intn(len(acc))]
+		req.cmd = old.cmd
+		req.direct, req.from = true, old.sender
+		c := w.contracts[rr.Intn(len(w.contracts))]
+		req.via = &c
 	case "replay", "replay-direct":
 		var acc []adminRec
 		for _, r := range w.adminLog {
@@ -402,7 +420,11 @@ func (w *world) adminTx(req *adminReq, acct *account, nonce uint64) *etypes.Tran
 	}
 	body := append(append([]byte{}, req.from.Bytes()...), tagged...)
 	data := append(common.LeftPadBytes(big.NewInt(int64(len(body))).Bytes(), 32), body...)
-	return etypes.NewTransaction(nonce, common.BytesToAddress([]byte{0xfe}), big.NewInt(0), 5000000, big.NewInt(0), data)
+	to := common.BytesToAddress([]byte{0xfe})
+	if req.via != nil {
+		to = *req.via
+	}
+	return etypes.NewTransaction(nonce, to, big.NewInt(0), 5000000, big.NewInt(0), data)
 }
 
 // refAuthorised is the reference predicate, from the property text: the request is a validator change
